@@ -21,7 +21,8 @@ import (
 
 type Case struct {
 	Cfg   refl.Cfg    `json:"cfg"`
-	Steps []refl.Step `json:"steps"`
+	Build []refl.Step `json:"build,omitempty"` // structure-building calls first (adders and removers only)
+	Steps []refl.Step `json:"steps"`           // then calls over every exported method
 }
 
 var hexRE = regexp.MustCompile(`0x[0-9a-f]+`)
@@ -91,7 +92,8 @@ func check(c Case) (pbt.Info, error) {
 	sizeBefore := cap_.Size()
 	r := refl.NewRunner(c.Cfg)
 	flags := map[string]bool{}
-	for i, s := range c.Steps {
+	all := append(append([]refl.Step(nil), c.Build...), c.Steps...)
+	for i, s := range all {
 		res := r.Do(s)
 		if !res.Called {
 			pbt.AddToSet("skipped calls (kind.method: reason)", c.Cfg.Kind+"."+s.M+": "+res.Why)
@@ -133,7 +135,21 @@ func gen(kind string) func(t *rapid.T) Case {
 				methods = append(methods, m, m, m)
 			}
 		}
-		c.Steps = refl.GenSteps(t, methods, 3, 14)
+		// a building phase made of adders and removers only, so that deep trees, long
+		// lists and wrapped rings exist before the wild calls start
+		var build []string
+		for _, m := range refl.Methods(c.Cfg) {
+			if builders[m] {
+				build = append(build, m)
+				if adders[m] {
+					build = append(build, m)
+				}
+			}
+		}
+		if len(build) > 0 && rapid.IntRange(0, 4).Draw(t, "build-phase") != 0 {
+			c.Build = refl.GenSteps(t, build, 2, 14)
+		}
+		c.Steps = refl.GenSteps(t, methods, 3, 12)
 		return c
 	}
 }
